@@ -7,7 +7,7 @@ EXPLANATION = (
     "callee and receiver types, and its consumer is classified: insensitive (sum/count/max/min/all/any, collect into a keyed or ordered container, try_for_each with an Ok/Err result, "
     "folds/reductions whose closure is max/min/saturating_add, retain, for-loops whose effects are keyed inserts and constant early errors, collect into a Vec that is sorted) or "
     "order-sensitive (collect into a Vec, next/last/nth/find/position/enumerate/zip/skip/take, other folds, pushes). The one confirmed escaping site — apply_block's Vec of the block's "
-    "transaction set — must flow only into apply_tx_batch (obligation R2). R2 batch-order commutativity: in create_next_state no remove_coin may be followed (on any path) by an "
+    "transaction set — must flow only into apply_tx_batch (obligation R2). R7 batch-invariant reads: no validation body under apply_tx_batch_impl (other than create_next_state and the speed fold) reads transactions / fee_pool / tips / dosc_speed of the state being extended. R2 batch-order commutativity: in create_next_state no remove_coin may be followed (on any path) by an "
     "insert_coin of a batch output, fee accumulators use commutative updates, and the other batch loops only perform keyed inserts. R3 ambient nondeterminism: Instant::now / elapsed "
     "flow only into logging and statistics; no RNG, thread-id or environment reads. R4 the transaction commitment is built from an ordered map / a sorted vector. "
     "R5 global state: the only statics are statistics counters (never read on a path into state) and the inflator table, a pure function of its index."
@@ -578,4 +578,40 @@ def r6_parallel_isolation(ctx):
         r.check(not bad, "check_tx_validity/params", "check_tx_validity takes only shared immutable inputs", "check_tx_validity takes %s" % bad)
 
 
-RULES = [r1_inventory, r2_batch_commutativity, r3_ambient, r4_commitment_order, r5_globals, r6_parallel_isolation]
+ACCUMULATED = ("transactions", "fee_pool", "tips", "dosc_speed")
+
+
+def r7_batch_invariant_reads(ctx):
+    r = ctx.rule("R7", "per-transaction validation reads none of the state fields that applying earlier transactions of the same block changes "
+                       "(transactions, fee_pool, tips, dosc_speed): a verdict cannot depend on how the block is split into batches")
+    prog = ctx.prog
+    US = "melstf::state::UnsealedState"
+    ab = ctx.body("melstf::state::applytx::apply_tx_batch_impl", r)
+    cns = ctx.body("melstf::state::applytx::create_next_state", r)
+    # the fields the batch step accumulates into, read off create_next_state and apply_tx_batch_impl themselves
+    written = set()
+    for f in ACCUMULATED:
+        if q.stmt_writes(cns, f) or q.stmt_writes(ab, f) or any(q.stmt_writes(c, f) for c in prog.all_nested(cns)):
+            written.add(f)
+    r.floor("accumulated fields", len(written), 3)
+    skip = {b.id for b in prog.all_nested(cns)}          # builds the next state from the old one: reads everything by design
+    fold = {b.id for b in prog.all_nested(ab)}            # the speed fold's identities read the old speed (C18.R3 decides that fold)
+    n = 0
+    for bid in sorted(prog.reach_from([ab.id])):
+        b = prog.by_id[bid]
+        if b.crate != "melstf" or not b.nname.startswith("melstf::state::applytx::") or bid in skip:
+            continue
+        n += 1
+        for f in sorted(written):
+            if f == "dosc_speed" and bid in fold:
+                continue
+            for bb, where in q.field_reads(b, US, f):
+                short = b.nname.replace("melstf::state::applytx::", "").replace("{closure#", "c").replace("}", "")
+                r.violation("reads/%s@%s" % (f, short), "%s reads `%s` of the state being extended, which the earlier transactions of the same block have already changed: "
+                            "the same transactions applied in one batch and one at a time are judged against different values" % (short, f), where)
+    r.floor("validation bodies", n, 8)
+    if not [x for x in r.records if x["verdict"] == "violation"]:
+        r.ok("reads/none", "no validation body under apply_tx_batch_impl reads %s" % sorted(written))
+
+
+RULES = [r1_inventory, r2_batch_commutativity, r3_ambient, r4_commitment_order, r5_globals, r6_parallel_isolation, r7_batch_invariant_reads]
